@@ -346,7 +346,7 @@ class Gen:
         self.note("opt-const-expr")
         return "(print %s)" % (self.const_int() if r.chance(1, 2) else self.const_bool())
 
-    def hint_scenario(self):
+    def hint_scenario(self, form=None):
         """one piece of code evaluated several times under different arrangements of local variables: a declaration made by
         eval() inside a function or loop (invisible to the parser), read through a name that may also be an outer local or a function"""
         r = self.rng
@@ -355,7 +355,7 @@ class Gen:
         name = self.fresh() if (not fs or r.chance(1, 2)) else r.choice(fs)         # a fresh variable, or the name of a function
         read = "(try (block (print (id %s))) (catch %s (block (print (int -1)))))" % (name, self.fresh())
         val = r.choice([100, 7, 42])
-        form = r.below(10)
+        form = r.below(10) if form is None else form
         if form >= 8:
             # shift AND shadow: between two evaluations of the same read, an eval()-made declaration in front shifts the slot of the outer variable
             # (so the cached slot holds another name) and a second eval()-made declaration gives the inner block a variable of the same name:
